@@ -5,6 +5,7 @@ package trie
 import (
 	"bytes"
 	"fmt"
+	"os"
 	"runtime/debug"
 	"sort"
 	"strings"
@@ -37,7 +38,7 @@ const c07Rule = "alphabets K1 (2-byte keys, deep shared prefixes), KB (2-byte, 4
 func TestVerif_C07_commits_update(t *testing.T) {
 	mc.Run(t, "C07", func(r *mc.R) {
 		c07Commits(r, "update")
-		if !r.Expired() {
+		if !r.Expired() && os.Getenv("VERIF_C07_HALF") != "1" {
 			c07Emissions(r)
 		}
 	})
@@ -86,6 +87,20 @@ func c07Commits(r *mc.R, mode string) {
 				}
 				shards = append(shards, shard{cfg.a, b, cfg.mode})
 			}
+		}
+		// The update enumeration is split over two steps (environment VERIF_C07_HALF=0|1 keeps the
+		// shards of that parity) so that each stays well inside its time budget on a loaded machine;
+		// together they cover every shard.
+		if h := os.Getenv("VERIF_C07_HALF"); h == "0" || h == "1" {
+			var keep []shard
+			for i, sh := range shards {
+				if i%2 == int(h[0]-'0') {
+					keep = append(keep, sh)
+				}
+			}
+			r.Bound("shards_total", len(shards))
+			r.Bound("half", h)
+			shards = keep
 		}
 		r.Bound("shards(alphabet,mode,base)", len(shards))
 		r.Parallel(len(shards), func(si int) {
